@@ -649,6 +649,26 @@ example : (runHistory [CoilCall.conj (⟨[1], [⟨1, 2⟩]⟩ : Tensor (Cpx Int)
 
 end History
 
+/-! ## size uniformity
+
+`reduceOp_spec` / `expandOp_spec` hold for **every** coil count with one formula.  An accumulation over complete groups of
+`g` coils only (`range(0, c - g + 1, g)`) agrees with it when `g ∣ c` and drops the last `c % g` coils otherwise. -/
+section Groups
+
+/-- `reduce` at one pixel accumulated over the complete groups of `g` coils only -/
+def reduceFibreGroups {R : Type} [Add R] [Sub R] [Mul R] [Neg R] [Zero R] (g : ℕ) (s y : List (Cpx R)) : Cpx R :=
+  ((List.range (s.length / g)).map fun k => reduceFibre ((s.drop (k * g)).take g) ((y.drop (k * g)).take g)).sum
+
+/-- three coils in groups of two: the third coil is dropped -/
+theorem grouped_reduce_drops_tail :
+    ∃ s y : List (Cpx Int), reduceFibreGroups 2 s y ≠ reduceFibre s y :=
+  ⟨[⟨1, 0⟩, ⟨1, 0⟩, ⟨1, 0⟩], [⟨1, 0⟩, ⟨1, 0⟩, ⟨1, 0⟩], by decide⟩
+
+example : reduceFibreGroups 2 [(⟨1, 0⟩ : Cpx Int), ⟨0, 1⟩, ⟨1, 1⟩, ⟨2, 0⟩] [⟨1, 0⟩, ⟨1, 0⟩, ⟨1, 0⟩, ⟨1, 0⟩] =
+    reduceFibre [⟨1, 0⟩, ⟨0, 1⟩, ⟨1, 1⟩, ⟨2, 0⟩] [⟨1, 0⟩, ⟨1, 0⟩, ⟨1, 0⟩, ⟨1, 0⟩] := by decide
+
+end Groups
+
 /-! ### non-vacuity of the tensor-level statements -/
 open DirectVerif.C02T in
 example : CoilAxis [2] [3] 1 := CoilAxis.nonneg [2] [3]
